@@ -44,6 +44,7 @@ CONSTANTS
   ShiftMax = {shiftmax}
   Variant = "{variant}"
   SampleMod = {mod}
+  BatchMod = {bmod}
   SampleSalt = {salt}
 {invs}
 CHECK_DEADLOCK FALSE
@@ -60,7 +61,7 @@ StateManager = None
 
 def cfg_text(c, variant="intended", invs=INVARIANTS):
     return CFG.format(ts=c["ts"], nmax=c["nmax"], kmax=c["kmax"], shiftmax=c["shiftmax"], variant=variant,
-                      mod=c.get("mod", 1), salt=c.get("salt", 0),
+                      mod=c.get("mod", 1), bmod=c.get("bmod", 1), salt=c.get("salt", 0),
                       invs="\n".join("INVARIANT " + i for i in invs))
 
 
@@ -314,8 +315,8 @@ def models(tier, seed):
         return [
             ("T<=2 n<=2 |k|<=2", dict(ts="{1, 2}", nmax=2, kmax=2, shiftmax=4), True),
             ("T=1 n<=3 |k|<=4", dict(ts="{1}", nmax=3, kmax=4, shiftmax=4), True),
-            ("T=2 n<=3 |k|<=4 sampled", dict(ts="{2}", nmax=3, kmax=4, shiftmax=2, mod=61, salt=seed % 61), False),
-            ("T=3 n<=2 |k|<=2 sampled", dict(ts="{3}", nmax=2, kmax=2, shiftmax=4, mod=127, salt=seed % 127), False),
+            ("T=2 n<=3 |k|<=4 sampled", dict(ts="{2}", nmax=3, kmax=4, shiftmax=2, bmod=4, mod=5, salt=seed % 20), False),
+            ("T=3 n<=2 |k|<=2 sampled", dict(ts="{3}", nmax=2, kmax=2, shiftmax=4, bmod=3, mod=7, salt=seed % 21), False),
         ]
     return [
         ("T<=2 n<=2 |k|<=4", dict(ts="{1, 2}", nmax=2, kmax=4, shiftmax=4), True),
